@@ -12,6 +12,8 @@ type vHist[S any, Op any] struct {
 	Close   func(s S)
 	// Stop is polled; when it returns true the search ends (capped).
 	Stop func() bool
+	// All makes run explore every first-level successor (no sharding).
+	All bool
 }
 
 // run explores breadth-first to the given depth. It returns the number of
@@ -43,12 +45,14 @@ func (e *vHist[S, Op]) run(c *vCtx, depth int) (states, transitions int64, compl
 				e.Close(s)
 			}
 			for i, op := range ops {
-				if d == 0 && !c.mine(i) {
+				if d == 0 && !e.All && !c.mine(i) {
 					continue
 				}
 				if e.Stop != nil && e.Stop() {
 					return states, transitions, false
 				}
+				hh, oo := it.h, op
+				c.beat(func() any { return map[string]any{"history": hh, "then": oo} })
 				s2 := replay(it.h)
 				e.Apply(s2, op, true, it.h)
 				transitions++
